@@ -392,7 +392,7 @@ impl Check for HistoryCheck {
         let n = spec.n();
         let mut ct = Tape::new(&tapes[1]);
         let mut st = Tape::new(&tapes[2]);
-        if n >= 65 {
+        if n >= 41 {
             st.enable_tail();
         }
         if (2..=8).contains(&n) && ct.chance(1, 600) {
@@ -883,7 +883,7 @@ impl Check for MultiCheck {
         let lockstep = !one_task && ct.chance(1, 3);
         // generate the interleaving from the schedule tape by simulating
         let mut st = Tape::new(&tapes[2]);
-        if n >= 65 {
+        if n >= 41 {
             st.enable_tail();
         }
         let schedule = {
